@@ -25,6 +25,7 @@
  */
 
 #include <stdlib.h>
+#include <limits.h>
 #include <stdint.h>
 #include <stdbool.h>
 #include <zck.h>
@@ -48,28 +49,14 @@ int compint_to_size(zckCtx *zck, size_t *val, const char *compint,
     VALIDATE_BOOL(zck);
 
     *val = 0;
-    size_t old_val = 0;
     const unsigned char *i = (unsigned char *)compint;
     int count = 0;
     bool done = false;
-    while(true) {
-        size_t c = i[0];
-        if(c >= 128) {
-            c -= 128;
-            done = true;
-        }
-        /* There *must* be a more elegant way of doing c * 128**count */
-        for(int f=0; f<count; f++)
-            c *= 128;
-        *val += c;
-        (*length) = (*length) + 1;
-        count++;
-        if(done)
-            break;
-        i++;
-        /* Make sure we're not overflowing and fail if we do */
-        if(count >= MAX_COMP_SIZE || count >= max_length || *val < old_val) {
-            if(count > max_length)
+    while(!done) {
+        /* Make sure we never read past the end of the buffer or accept more
+         * than MAX_COMP_SIZE bytes */
+        if(count >= MAX_COMP_SIZE || *length >= max_length) {
+            if(*length >= max_length)
                 set_fatal_error(zck, "Read past end of header");
             else
                 set_fatal_error(zck, "Number too large");
@@ -77,7 +64,22 @@ int compint_to_size(zckCtx *zck, size_t *val, const char *compint,
             *val = 0;
             return false;
         }
-        old_val = *val;
+        size_t c = i[count];
+        if(c >= 128) {
+            c -= 128;
+            done = true;
+        }
+        /* Each byte holds seven bits; fail if they don't fit in a size_t */
+        int shift = count * 7;
+        if(c != 0 && (c << shift) >> shift != c) {
+            set_fatal_error(zck, "Number too large");
+            *length -= count;
+            *val = 0;
+            return false;
+        }
+        *val += c << shift;
+        (*length) = (*length) + 1;
+        count++;
     }
     return true;
 }
@@ -101,10 +103,10 @@ int compint_to_int(zckCtx *zck, int *val, const char *compint, size_t *length,
     size_t new = (size_t)*val;
     if(!compint_to_size(zck, &new, compint, length, max_length))
         return false;
-    *val = (int)new;
-    if(*val < 0) {
-        set_fatal_error(zck, "Overflow error: compressed int is negative");
+    if(new > INT_MAX) {
+        set_fatal_error(zck, "Overflow error: compressed int is too large");
         return false;
     }
+    *val = (int)new;
     return true;
 }
